@@ -3,11 +3,12 @@ import math, os, shutil, struct, tempfile, warnings
 
 from ..gen import mesh as G
 from ..gen import c04io as IO
+from ..gen import c04_translate as CT
 from .. import translate as T
 
 PID = "C04"
 TITLE = "Saving then loading a mesh is lossless within each format's vocabulary"
-LEAN_MODULES = ["Mouette.Props.C04"]
+LEAN_MODULES = ["Mouette.Props.C04", "Mouette.Props.C04Source"]
 REQUIRED_THEOREMS = [
     "medit_rows_bridge", "obj_load_save", "tet_load_save", "xyz_load_save", "medit_load_save", "medit_load_save_generated",
     "off_load_save_partial", "off_load_save_actual", "off_quad_refuted", "off_polygon_refuted",
@@ -26,6 +27,14 @@ REQUIRED_THEOREMS = [
     "save_history_clearShared_refuted", "second_generation", "load_save_any_representation", "same_values_same_load",
     "stl_reader_soup", "stl_merge_keeps_soup",
     "ignored_save_is_save_of_restriction", "wireframe_keeps_all_edges",
+    # round 4 (Props/C04Source.lean): writer bodies, extension dispatch and class choice translated from the source on every run
+    "export_off_bridge", "export_tet_bridge", "export_xyz_bridge", "export_obj_bridge", "export_medit_bridge", "export_stl_bridge",
+    "count_faces_source", "count_cells_source", "stl_formats_source", "obj_load_save_source", "tet_load_save_source",
+    "xyz_load_save_source", "medit_load_save_source", "off_load_save_source_actual", "stl_load_save_source", "stl_header_count_source",
+    "obj_read_by_reference_source", "off_read_by_reference_source", "tet_read_by_reference_source", "xyz_read_by_reference_source",
+    "dispatch_bridge", "dispatch_pairs", "load_class_source", "load_dim_override_source",
+    "import_xyz_bridge", "parse_tet_bridge", "xyz_round_trip_source", "tet_round_trip_source", "xyz_reads_reference_source",
+    "tet_reads_reference_source",
 ]
 TRUSTED = [
     "Lean 4.33.0 kernel; axioms ⊆ {propext, Classical.choice, Quot.sound}",
@@ -33,6 +42,11 @@ TRUSTED = [
     "token-level models Mouette/Model/IO.lean, IOGeogram.lean tied to mouette/mesh/io/*.py by (a) token-exact comparison of the bytes "
     "mouette writes with the model's export, (b) model import vs mouette's load on mouette-written and reference-written files, "
     "(c) the translated dispatch table of import_medit; textual glue (split/strip/int()) is modelled, not verified",
+    "round 4: the WRITERS of off, tet, xyz, medit, obj and binary stl, the READERS import_xyz and parse_tet_data, the extension dispatch and the class choice are no longer hand-modelled: "
+    "their bodies are compiled from the working tree on every run (vlib/gen/c04_translate.py: Python string expressions -> token lines, "
+    "statements -> concatenation / flatMap / if; this compiler and the vocabulary Model/IOSource.lean are trusted) and bridged to the models; "
+    "scope assumptions of the compilation: no uv_coords / normals attribute, hasattr(mesh, container) true, IndexError of mesh.edges[e] / "
+    "of a short starred format argument not modelled (hypothesis HardOk / guarded by len(face)==k)",
     "stl_reader (binary STL import) is external: modelled as 'returns the triangle soup of the file', compared as a multiset",
     "RawMeshData.prepare (completion of edges/faces) belongs to C02: the C04 model takes the prepared mesh content as its input",
 ]
@@ -47,6 +61,57 @@ RULE = ("round 3 adds: histories on one mesh object (save, save again, save to a
         "doubles; x 7 formats x switches (export_edges_in_obj, complete_edges_from_faces, ignore_elements, re-wrap) x two scenarios "
         "(rt: mouette saves then loads; ref: an independent writer's file is loaded). non-trivial = distinct case whose save and load "
         "both succeeded on a mesh with at least one element beyond isolated vertices or with adversarial coordinates")
+
+# every function / method defined in the files the property is anchored in.  "translated": a definition of Generated/C04*.lean is
+# produced from that BODY on every run and a bridge theorem of Props/C04.lean / Props/C04Source.lean uses it (what is translated is
+# said after the colon); "modelled": hand-written Lean model tied to the code by the correspondence run only; "oracle-only": only the
+# Python oracle / reference codecs look at its behaviour.
+_IO = "mouette/mesh/io/"
+SOURCE_MAP = {
+    _IO + "obj.py::import_obj": "modelled: open/readlines glue around parse_obj_data (token-level file)",
+    _IO + "obj.py::parse_vertex": "modelled: readIdx1 of Model/IO.lean (the `v/vt/vn` forms are outside the property)",
+    _IO + "obj.py::parse_obj_data": "translated: line-prefix dispatch table only (Generated.C04Tables.objRows, obj_rows_bridge); the branch bodies are hand-modelled (stepObj)",
+    _IO + "obj.py::export_obj": "translated: whole body, statement by statement (Generated.C04W.exportObj, export_obj_bridge), under 'no uv_coords / normals attribute'",
+    _IO + "medit.py::parse_field": "modelled: readField (the translator pins `[int(u.strip()) - 1 for u in line][:nelem]` textually)",
+    _IO + "medit.py::import_medit": "translated: (keyword, container, arity) dispatch table only (Generated.C04Medit.rows, medit_rows_bridge); the deque loop is hand-modelled (stepMedit)",
+    _IO + "medit.py::count_cells": "translated: whole body (Generated.C04W.countCells, count_cells_source)",
+    _IO + "medit.py::count_faces": "translated: whole body (Generated.C04W.countFaces, count_faces_source)",
+    _IO + "medit.py::export_medit": "translated: whole body, statement by statement (Generated.C04W.exportMedit, export_medit_bridge)",
+    _IO + "geogram_ascii.py::Chunk.Type.from_string": "modelled: Model/IOGeogram.lean (chunk classes)",
+    _IO + "geogram_ascii.py::Chunk.Container.from_string": "modelled: Model/IOGeogram.lean (container names)",
+    _IO + "geogram_ascii.py::Chunk.Container.to_string": "modelled: Model/IOGeogram.lean (container names)",
+    _IO + "geogram_ascii.py::Chunk.__init__": "modelled: Geo.parseFile (file -> chunk list)",
+    _IO + "geogram_ascii.py::is_chunk_header": "modelled: Geo.parseFile",
+    _IO + "geogram_ascii.py::import_attribute": "modelled: Geo.importChunks (attribute chunks)",
+    _IO + "geogram_ascii.py::import_geogram_ascii": "modelled: Geo.importGeo / importChunks",
+    _IO + "geogram_ascii.py::export_attribute": "modelled: Geo.exportChunks (attribute chunks)",
+    _IO + "geogram_ascii.py::export_geogram_ascii": "modelled: Geo.exportGeo / exportChunks",
+    _IO + "off.py::import_off": "modelled: open/readlines glue around parse_off_data",
+    _IO + "off.py::parse_off_data": "modelled: importOff / stepOff of Model/IO.lean",
+    _IO + "off.py::export_off": "translated: whole body (Generated.C04W.exportOff, export_off_bridge)",
+    _IO + "tet.py::import_tet": "modelled: open/readlines glue around parse_tet_data",
+    _IO + "tet.py::parse_tet_data": "translated: whole body (Generated.C04R.parseTet, parse_tet_bridge); deque()/strip()/split() are the token-level glue",
+    _IO + "tet.py::export_tet": "translated: whole body (Generated.C04W.exportTet, export_tet_bridge)",
+    _IO + "xyz.py::import_xyz": "translated: the line loop (Generated.C04R.xyzStep / importXyz, import_xyz_bridge); the normals side list / attribute is outside the property",
+    _IO + "xyz.py::export_xyz": "translated: whole body, branch without normals (Generated.C04W.exportXyz, export_xyz_bridge)",
+    _IO + "stl.py::is_stl_ascii": "oracle-only: exercised by the reference-written ASCII STL files",
+    _IO + "stl.py::import_stl": "modelled: importStlMerged of Model/IOStl.lean (stl_reader itself is external, trusted)",
+    _IO + "stl.py::_import_stl_ascii": "oracle-only: ASCII STL files of the reference writer are loaded and compared by the oracle; no Lean model",
+    _IO + "stl.py::export_stl": "modelled: hasattr guard + Binary_STL_Writer(fp).write(mesh) (exportStl)",
+    _IO + "stl.py::Binary_STL_Writer.__init__": "translated: `self.counter = 0` is the initial state of Generated.C04W.exportStl (export_stl_bridge)",
+    _IO + "stl.py::Binary_STL_Writer._write_header": "translated: struct layout 80s+I and the counter written last (Generated.C04W.exportStl / stlFormats, stl_header_count_source)",
+    _IO + "stl.py::Binary_STL_Writer._write_triangle": "translated: whole body (Generated.C04W.writeTriangle, export_stl_bridge)",
+    _IO + "stl.py::Binary_STL_Writer.write": "translated: whole body (Generated.C04W.writeFace / exportStl, export_stl_bridge)",
+    _IO + "io.py::read_by_extension": "translated: extension table + lookup shape (Generated.C04D.readRows, dispatch_bridge)",
+    _IO + "io.py::write_by_extension": "translated: extension table + lookup shape (Generated.C04D.writeRows, dispatch_bridge)",
+    "mouette/mesh/mesh.py::_instanciate_raw_mesh_data": "translated: whole body (Generated.C04D.instantiate, load_class_source, load_dim_override_source)",
+    "mouette/mesh/mesh.py::load": "modelled: the three statements are pinned textually by the translator (read_by_extension, raw, _instanciate_raw_mesh_data)",
+    "mouette/mesh/mesh.py::save": "translated: ignore_elements guards and how containers are emptied (Generated.C04Save, save_guards_bridge); re-wrap and write call pinned textually",
+    "mouette/mesh/mesh.py::from_arrays": "out-of-scope: not on the save/load path (construction from arrays: C01/C02)",
+    "mouette/mesh/mesh.py::copy": "out-of-scope: not on the save/load path",
+    "mouette/mesh/mesh.py::merge": "out-of-scope: not on the save/load path",
+    "mouette/mesh/mesh.py::reorder_vertices": "out-of-scope: not on the save/load path",
+}
 
 CLASSES = ["PointCloud", "PolyLine", "SurfaceMesh", "VolumeMesh"]
 INTERNAL_ATTRS = {"hard_edges", "adjacent_cell", "opposite_cell", "opposite_face", "corner_adjacent_facet",
@@ -1255,7 +1320,24 @@ def translate():
                 ", ".join(f'("{k}", .{c}, {n})' for k, c, n in rows) + "]\n\nend Mouette.Generated.C04Medit\n")
         T.write_generated("C04Medit", body)
         return {"rows": rows}
-    return [T.site("mouette/mesh/io/medit.py: import_medit dispatch (keyword, container, arity)", site),
+    def site_writers():
+        txt, detail = CT.writers()
+        T.write_generated("C04Writers", txt)
+        return detail
+
+    def site_dispatch():
+        txt, detail = CT.dispatch()
+        T.write_generated("C04Dispatch", txt)
+        return detail
+    def site_readers():
+        txt, detail = CT.readers()
+        T.write_generated("C04Readers", txt)
+        return detail
+    return [T.site("mouette/mesh/io/{xyz,tet}.py: reader bodies import_xyz (line loop), parse_tet_data (deque, header counts, range loops)", site_readers)] + \
+           [T.site("mouette/mesh/io/{off,tet,xyz,medit,obj,stl}.py: writer bodies export_off, export_tet, export_xyz, export_medit (+count_faces, "
+                   "count_cells), export_obj, Binary_STL_Writer.{__init__,_write_header,_write_triangle,write} read statement by statement", site_writers),
+            T.site("mouette/mesh/io/io.py: read_by_extension / write_by_extension tables; mesh.py: load, _instanciate_raw_mesh_data", site_dispatch),
+            T.site("mouette/mesh/io/medit.py: import_medit dispatch (keyword, container, arity)", site),
             T.site("mesh_attributes.py: Attribute.Type.from_string/to_string/byte_size; obj.py: parse_obj_data line-prefix dispatch", site2),
             T.site("mouette/mesh/mesh.py: save() ignore_elements guards (keyword, containers, replace vs clear-shared)", site3)]
 
@@ -1273,7 +1355,13 @@ MANIFEST = {
                    "import_f (refExport_f m) and refImport_f (export_f m) = restrict_f m for all meshes; mixed cell arities with "
                    "cell_ptr); geogram user attributes in context (any number of attribute chunks per element set come back with "
                    "container, name, type, arity, values; nothing invented); translated tables for Attribute.Type.from_string / "
-                   "to_string / byte_size and the obj line-prefix dispatch, each bridged by `decide`. The models are tied to the code by token-exact "
+                   "to_string / byte_size and the obj line-prefix dispatch, each bridged by `decide`. Round 4 (Props/C04Source.lean): the writer "
+                   "BODIES export_off, export_tet, export_xyz, export_medit (+count_faces, count_cells), export_obj and the binary STL writer "
+                   "(counter, header rewritten last, triangle / quad split / ValueError), the reader bodies import_xyz and parse_tet_data, the extension tables of io.py and the class choice of "
+                   "_instanciate_raw_mesh_data are compiled from the working tree on every run (statement order, loops, guards, iterated "
+                   "container, +1 / +0 index base, keyword lines, format placeholders; anything unrecognised = broken obligation) and proved "
+                   "equal to the models (`export_*_bridge`), so the round-trip and interoperability theorems are also stated on what the "
+                   "source writes now (`*_source`). The models are tied to the code by token-exact "
                    "comparison of the bytes mouette writes with the model's export, by model import vs mouette load on mouette-written "
                    "and on independently written files, and by a direct oracle (independent reference reader and writer per format, "
                    "vocabulary table, bit-exact coordinates on adversarial doubles)."),
@@ -1281,5 +1369,5 @@ MANIFEST = {
                    "established on the meshes of each run only); Python float repr/parse round trip (sampled, hypothesis of the theorems); "
                    "stl_reader (external) abstracted to the triangle soup; RawMeshData.prepare is C02's (the model takes the prepared "
                    "mesh content as input); geogram: file->chunk splitting and attributes-in-context are correspondence-only."),
-    "technique": "Lean 4 codec round-trip proofs over executable token models + translated dispatch table; differential byte/token correspondence; reference codecs",
+    "technique": "Lean 4 codec round-trip proofs over executable token models + writers / dispatch tables compiled from the source with bridge theorems; differential byte/token correspondence; reference codecs",
 }
